@@ -51,7 +51,9 @@ def enumerate_cases():
     for req, item_vis in itertools.product(["", "pub", "pub(crate)", "pub(super)", "pub(in crate::CID)", "pub(self)", "pub(in super::super)"],
                                            ["", "pub", "pub(crate)"]):
         out.append(dict(kind="fn", req=req, item_vis=item_vis))
-    for req, item_vis in itertools.product(["", "pub", "pub(crate)"], ["", "pub", "pub(crate)"]):
+    # module inputs: relative restricted paths (pub(super), pub(in super::..)) mean different things on the trait inside the
+    # module and on the re-export beside it and are a documented limitation (tests/it/simple.rs); absolute ones are well-defined
+    for req, item_vis in itertools.product(["", "pub", "pub(crate)", "pub(in crate::CID)"], ["", "pub", "pub(crate)"]):
         out.append(dict(kind="mod", req=req, item_vis=item_vis))
     for tvis, avis, deleg in itertools.product(["", "pub", "pub(crate)", "pub(super)"], ["", "pub"], ["none", "static", "dyn"]):
         if deleg == "none" and avis:
@@ -121,7 +123,7 @@ pub mod %(cid)s_obs { %(o_out)s }
             expect["%s:%s" % (point, n)] = model(eff, point)
         if kind == "mod" and model(spec["item_vis"], point):
             # inside the module the trait is declared with the requested visibility, `pub(super)` when none was requested
-            inner = {"": "", "pub": "pub", "pub(crate)": "pub(crate)"}[eff]
+            inner = {"": "", "pub": "pub", "pub(crate)": "pub(crate)", "pub(in crate::CID)": "pub(in crate::CID)"}[eff]
             expect["%s:via_mod" % point] = model(inner, point)
     c = Case(cid, binsrc, meta={"spec": spec, "expect": expect, "names": names, "lib": lib,
                                 "nontrivial": spec["req"] != spec["item_vis"]})
@@ -198,7 +200,7 @@ def inject(src, where, stmt):
 
 def run(tier, seed):
     rep = core.Report(PROP, tier, seed)
-    rep.rule = ("exhaustive: requested visibility {none, pub, pub(crate); fn inputs also pub(super), pub(self), pub(in path) x2} x item "
+    rep.rule = ("exhaustive: requested visibility {none, pub, pub(crate), pub(in crate::path); fn inputs also pub(super), pub(self), pub(in super::super)} x item "
                 "visibility {none, pub, pub(crate)} x {fn, mod}; trait inputs: trait visibility {none, pub, pub(crate), pub(super)} x "
                 "{no target, static target, dynamic target} x visibility written before the target name; each observed from 7 points. "
                 "non-trivial = requested visibility differs from the item's own visibility")
@@ -255,7 +257,7 @@ def run(tier, seed):
             bi = tok.find_brace(inp)
             items = tok.split_items(out[bi]["s"][len(inp[bi]["s"]):])
             after = out[bi + 1:]
-            want_use = m["spec"]["req"]
+            want_use = m["spec"]["req"].replace("CID", c.id)
             got_use = tok.render(tok.vis_of(after, 0)[0])
             if got_use.replace(" ", "") != want_use.replace(" ", ""):
                 rep.violation(c.id, "reexport-vis", "module re-export has visibility `%s`, requested `%s`" % (got_use, want_use))
